@@ -187,6 +187,15 @@ def check_claim(chk, cfg, m, fn):
         elif net == -1:
             chk.ob("R2.reservation", pathid, not _is_null(p.ret),
                    "net effect -1 on num_free: must return a buffer (returns %s)" % fmt(p.ret)[:80], loc, fn.name)
+            # the permit is granted by the decrement itself: the path that keeps it must have looked at the value THAT operation
+            # returned.  A separate earlier look (load, then decrement) lets two claimers see the same last permit and both take it
+            if subs and not _is_null(p.ret):
+                seen = any(paths.contains(c, lambda x, r=e_.res: x == r) for e_ in subs for c, taken, inst in p.conds)
+                chk.ob("R2.reservation", pathid + " grant", seen,
+                       "the permit is kept on the strength of the value the decrement itself returned" if seen else
+                       "the permit is kept without testing what the decrement returned (the counter was examined by a separate, earlier "
+                       "operation): two claimers that both observe the last permit both decrement and both go on to take a slot - one "
+                       "of them a slot that still holds an unreceived message", subs[0].inst.loc, fn.name)
         elif net == 0:
             ok = _is_null(p.ret) and not sendp_w
             why = "net effect 0 on num_free: must return NULL and leave sendp alone"
